@@ -112,7 +112,9 @@ def band(*vals: float) -> float:
 
 
 def count_le(thresholds_sorted: List[float], x: float, tol: float) -> Tuple[int, int]:
-    lo = sum(1 for b in thresholds_sorted if b <= x - tol)
+    # (a threshold EXACTLY equal to x is decided, not ambiguous: the code compares the very same two floats - the muzzle at
+    #  x = 0.0 against a segment that ends at distance 0 is the case that matters)
+    lo = sum(1 for b in thresholds_sorted if b <= x - tol or b == x)
     hi = sum(1 for b in thresholds_sorted if b <= x + tol)
     return lo, hi
 
